@@ -7,6 +7,7 @@ import (
 	"go/token"
 	"go/types"
 	"path/filepath"
+	"reflect"
 	"sort"
 	"strings"
 
@@ -55,6 +56,73 @@ func (wk *c12walker) bad(sig, format string, args ...any) {
 // flatFields is the reference flattening rule: an embedded field whose type is
 // a (non time) struct contributes its own flattened fields.
 func (wk *c12walker) flatFields(st *types.Struct) (vars []*types.Var, tags []string) {
+	vars, tags, depths := wk.flatFieldsDepth(st, 0)
+	// Fields sharing one JSON key after flattening: the analysis keeps what encoding/json serialises
+	// (C09) - the least nested one, a field NAMED by its tag winning over the others at that depth, none
+	// when several remain. Fields that are not serialised (unexported, json:"-") are never grouped.
+	key := func(i int) (string, bool, bool) {
+		name, _, _ := strings.Cut(reflect.StructTag(tags[i]).Get("json"), ",")
+		if !vars[i].Exported() || reflect.StructTag(tags[i]).Get("json") == "-" {
+			return "", false, false
+		}
+		if name == "" {
+			return vars[i].Name(), false, true
+		}
+		return name, true, true
+	}
+	groups := map[string][]int{}
+	for i := range vars {
+		if k, _, ok := key(i); ok {
+			groups[k] = append(groups[k], i)
+		}
+	}
+	hidden := map[int]bool{}
+	for _, idx := range groups {
+		if len(idx) < 2 {
+			continue
+		}
+		min := depths[idx[0]]
+		for _, i := range idx {
+			if depths[i] < min {
+				min = depths[i]
+			}
+		}
+		var cands, named []int
+		for _, i := range idx {
+			if depths[i] == min {
+				cands = append(cands, i)
+				if _, isNamed, _ := key(i); isNamed {
+					named = append(named, i)
+				}
+			}
+		}
+		keep := -1
+		if len(cands) == 1 {
+			keep = cands[0]
+		} else if len(named) == 1 {
+			keep = named[0]
+		}
+		for _, i := range idx {
+			if i != keep {
+				hidden[i] = true
+			}
+		}
+	}
+	if len(hidden) == 0 {
+		return vars, tags
+	}
+	wk.ctx.W.Count("struct-fields-hidden-by-json-shadowing", len(hidden))
+	var v2 []*types.Var
+	var t2 []string
+	for i := range vars {
+		if !hidden[i] {
+			v2, t2 = append(v2, vars[i]), append(t2, tags[i])
+		}
+	}
+	return v2, t2
+}
+
+func (wk *c12walker) flatFieldsDepth(st *types.Struct, depth int) (vars []*types.Var, tags []string, depths []int) {
 	for i := 0; i < st.NumFields(); i++ {
 		f := st.Field(i)
 		ft := types.Unalias(f.Type())
@@ -62,9 +130,10 @@ func (wk *c12walker) flatFields(st *types.Struct) (vars []*types.Var, tags []str
 			if n, ok := ft.(*types.Named); ok && !isTimeLike(n) {
 				if inner, ok := n.Underlying().(*types.Struct); ok {
 					if _, isEnum := wk.ref.enums[n]; !isEnum {
-						v, t := wk.flatFields(inner)
+						v, t, d := wk.flatFieldsDepth(inner, depth+1)
 						vars = append(vars, v...)
 						tags = append(tags, t...)
+						depths = append(depths, d...)
 						continue
 					}
 				}
@@ -72,6 +141,7 @@ func (wk *c12walker) flatFields(st *types.Struct) (vars []*types.Var, tags []str
 		}
 		vars = append(vars, f)
 		tags = append(tags, st.Tag(i))
+		depths = append(depths, depth)
 	}
 	return
 }
